@@ -25,7 +25,7 @@ TOL = 1e-6
 
 
 def plan(tier):
-    n = 300 if tier == "quick" else 10000   # batches of BATCH allocations
+    n = 300 if tier == "quick" else 4000   # batches of BATCH allocations
     return [dict(unit="w4", n=n, builds=["py", "so"], case_timeout=300, chunk=10 if tier == "quick" else 100)]
 
 
